@@ -506,3 +506,41 @@ V("C01", "pdb-frames-all-first-coords", T, "                    f.write(\n      
 V("C01", "savers-dcd-to-netcdf-class", T, '            ".ncdf": self.save_netcdf,', '            ".ncdf": self.save_mdcrd,', "C01-R1")
 V("C01", "h5-units-attr-angstroms", "mdtraj/formats/hdf5.py", 'self._handle.root.coordinates.attrs["units"] = "nanometers"', 'self._handle.root.coordinates.attrs["units"] = "angstroms"', "C01-R3")
 V("C01", "twin-format-by-concatenation", "mdtraj/formats/pdb/pdbfile.py", '"CRYST1{:9.3f}{:9.3f}{:9.3f}{:7.2f}{:7.2f}{:7.2f} P 1           1 "', '"CRYST1{:9.3f}{:9.3f}{:9.3f}{:7.2f}{:7.2f}{:7.2f} P 1           1 "', None)
+
+# ---------------------------------------------------------------- C11
+PX = "mdtraj/geometry/src/image_molecules.pxi"
+V("C11", "result-is-self-on-both-branches", T, """        if inplace:
+            result = self
+        else:
+            # This slice-based assignment ensures all numpy arrays in result
+            #  are copies, not views, of the corresponding items in self:
+            result = self[:]
+
+        if sorted_bonds is None:""", """        if inplace:
+            result = self
+        else:
+            result = self
+
+        if sorted_bonds is None:""", "C11-R1", "Trajectory.make_molecules_whole")
+V("C11", "image-copy-is-shallow-slice", T, "            result = self[:]\n        if make_whole and sorted_bonds is None:", "            result = self.slice(slice(None), copy=False)\n        if make_whole and sorted_bonds is None:",
+  "C11-R1", "Trajectory.image_molecules")
+V("C11", "make_whole-cell-transposed", PX, "            offset[k] = frame_unitcell_vectors[2, k]*roundf(delta[2]/frame_unitcell_vectors[2,2])", "            offset[k] = frame_unitcell_vectors[k, 2]*roundf(delta[2]/frame_unitcell_vectors[2,2])", "C11-R2", "make_whole")
+V("C11", "make_whole-roundf-dropped", PX, "            offset[k] += frame_unitcell_vectors[1, k]*roundf((delta[1]-offset[1])/frame_unitcell_vectors[1,1])", "            offset[k] += frame_unitcell_vectors[1, k]*((delta[1]-offset[1])/frame_unitcell_vectors[1,1])", "C11-R2", "make_whole")
+V("C11", "make_whole-wrong-divisor", PX, "roundf((delta[0]-offset[0])/frame_unitcell_vectors[0,0])\n            frame_positions", "roundf((delta[0]-offset[0])/frame_unitcell_vectors[1,1])\n            frame_positions", "C11-R2", "make_whole")
+V("C11", "make_whole-order-a-b-c", PX, """            offset[k] = frame_unitcell_vectors[2, k]*roundf(delta[2]/frame_unitcell_vectors[2,2])
+        for k in range(3):
+            offset[k] += frame_unitcell_vectors[1, k]*roundf((delta[1]-offset[1])/frame_unitcell_vectors[1,1])
+        for k in range(3):
+            offset[k] += frame_unitcell_vectors[0, k]*roundf((delta[0]-offset[0])/frame_unitcell_vectors[0,0])""",
+  """            offset[k] = frame_unitcell_vectors[0, k]*roundf(delta[0]/frame_unitcell_vectors[0,0])
+        for k in range(3):
+            offset[k] += frame_unitcell_vectors[1, k]*roundf((delta[1]-offset[1])/frame_unitcell_vectors[1,1])
+        for k in range(3):
+            offset[k] += frame_unitcell_vectors[2, k]*roundf((delta[2]-offset[2])/frame_unitcell_vectors[2,2])""", "C11-R2", "make_whole")
+V("C11", "wrap_mols-per-atom-term", PX, "                frame_positions[mol[j], k] += mol_offset[k]-mol_center[k]", "                frame_positions[mol[j], k] += mol_offset[k]-mol_center[k]*0.5", "C11-R2", "wrap_mols")
+V("C11", "image_frame-np-round-dropped", PX, "        offset = frame_unitcell_vectors[2]*np.round(delta[2]/frame_unitcell_vectors[2,2])", "        offset = frame_unitcell_vectors[2]*(delta[2]/frame_unitcell_vectors[2,2])", "C11-R2", "image_frame")
+V("C11", "make_whole-normalises-cell", PX, "        atom1 = sorted_bonds[j, 0]\n        atom2 = sorted_bonds[j, 1]\n        for k in range(3):\n            delta[k]",
+  "        atom1 = sorted_bonds[j, 0]\n        atom2 = sorted_bonds[j, 1]\n        frame_unitcell_vectors[1, 2] = 0\n        for k in range(3):\n            delta[k]", "C11-R3", "make_whole")
+V("C11", "bonds-not-sorted", T, "            sorted_bonds = sorted(self._topology.bonds, key=lambda bond: bond[0].index)\n            sorted_bonds = np.asarray(\n                [[b0.index, b1.index] for b0, b1 in sorted_bonds],\n                dtype=np.int32,\n            )\n\n        box = np.asarray(result.unitcell_vectors, order=\"c\")\n        _geometry.whole_molecules",
+  "            sorted_bonds = list(self._topology.bonds)\n            sorted_bonds = np.asarray(\n                [[b0.index, b1.index] for b0, b1 in sorted_bonds],\n                dtype=np.int32,\n            )\n\n        box = np.asarray(result.unitcell_vectors, order=\"c\")\n        _geometry.whole_molecules", "C11-R4", "Trajectory.make_molecules_whole")
+V("C11", "twin-floorf-plus-half", PX, "            offset[k] = frame_unitcell_vectors[2, k]*roundf(delta[2]/frame_unitcell_vectors[2,2])", "            offset[k] = frame_unitcell_vectors[2, k]*floorf(delta[2]/frame_unitcell_vectors[2,2] + 0.5)", None)
